@@ -5,6 +5,7 @@ static uv::Cmd cmds[] = {
 	{"namematch", cmd_namematch},
 	{"trace", cmd_trace},
 	{"json", cmd_json},
+	{"promela", cmd_promela},
 	{0, 0}
 };
 int main(int argc, char** argv) {
